@@ -132,4 +132,45 @@ func runC27(c *eng.Ctx) {
 			return false
 		})
 	}
+	// ---- R4 state carried across steps: a cache is keyed by everything its value is computed from ----
+	// resultMetric caches the output label set of a binary operation in the EvalNodeHelper, which lives across all
+	// steps of a range evaluation: a label-set parameter that influences the cached value must be part of the key.
+	{
+		rm := c.Fn(Q + "resultMetric")
+		var lookup ast.Node
+		ast.Inspect(rm.Body, func(n ast.Node) bool {
+			if is, ok := n.(*ast.IfStmt); ok && is.Init != nil && strings.Contains(nodeText(is.Init), "enh.resultMetric[") && lookup == nil {
+				lookup = is
+			}
+			return true
+		})
+		if lookup == nil {
+			c.Fail("R4", rm.Where(), "the cache lookup of resultMetric exists", p.Pos(rm.Body.Pos()), "not found")
+		} else {
+			before, after := map[string]bool{}, map[string]bool{}
+			ast.Inspect(rm.Body, func(n ast.Node) bool {
+				id, ok := n.(*ast.Ident)
+				if !ok || (id.Name != "lhs" && id.Name != "rhs") {
+					return true
+				}
+				if id.Pos() < lookup.Pos() {
+					before[id.Name] = true
+				} else if id.Pos() > lookup.End() {
+					after[id.Name] = true
+				}
+				return true
+			})
+			var missing []string
+			for k := range after {
+				if !before[k] {
+					missing = append(missing, k)
+				}
+			}
+			c.Check("R4", rm.Where(), "every label-set parameter the cached result metric is built from is written into the cache key", len(missing) == 0 && len(after) == 2, p.Pos(lookup.Pos()), "used for the value but not for the key: "+strings.Join(missing, ", "))
+			// the value stored is the one just built, under the key just looked up
+			rm.Only("R4", p.StoreElem(Q+"EvalNodeHelper.resultMetric"), "stores the label set just built under the key just looked up", func(l eng.Loc) bool {
+				return nodeText(l.Node) == "enh.resultMetric[str] = ret"
+			})
+		}
+	}
 }
